@@ -174,6 +174,8 @@ impl Binder {
             .get_table_id_by_name(schema_name, table_name)
             .ok_or_else(|| ErrorKind::InvalidTable(table_name.into()))?;
 
+        #[cfg(feature = "verif")]
+        crate::verif::event("binder.table_resolved", &[ref_id.table_id as u64]);
         // (the table may have been dropped by another session since the lookup above)
         let table = self
             .catalog
@@ -226,6 +228,8 @@ impl Binder {
             .get_table_id_by_name(schema_name, table_name)
             .ok_or_else(|| ErrorKind::InvalidTable(table_name.into()).with_spanned(&name))?;
 
+        #[cfg(feature = "verif")]
+        crate::verif::event("binder.table_resolved", &[table_ref_id.table_id as u64]);
         let table = self
             .catalog
             .get_table(&table_ref_id)
@@ -267,6 +271,8 @@ impl Binder {
             .catalog
             .get_table_id_by_name(schema_name, table_name)
             .ok_or_else(|| ErrorKind::InvalidTable(table_name.into()).with_spanned(&name))?;
+        #[cfg(feature = "verif")]
+        crate::verif::event("binder.table_resolved", &[table_ref_id.table_id as u64]);
         let table = self
             .catalog
             .get_table(&table_ref_id)
